@@ -312,7 +312,7 @@ Lemma sighash4_commits t t' ht ht' idx idx' v v' code code' d :
 Proof.
   intros W W' U U' V V' C C' E E'.
   assert (Q : view4_of t (Transp4 ht idx v code) = view4_of t' (Transp4 ht' idx' v' code')).
-  { apply (sighash4_iff_wf _ _ _ _ _ _ W W' (conj U (conj V C)) (conj U' (conj V' C')) E E'). reflexivity. }
+  { apply (sighash4_iff_wf t t' (Transp4 ht idx v code) (Transp4 ht' idx' v' code') d d W W' (conj U (conj V C)) (conj U' (conj V' C')) E E'). reflexivity. }
   unfold sighash4_tree in E, E'.
   destruct (view4_of t (Transp4 ht idx v code)) as [w|] eqn:VW; [|discriminate].
   destruct (view4_of t' (Transp4 ht' idx' v' code')) as [w'|] eqn:VW'; [|discriminate].
@@ -335,12 +335,36 @@ Lemma view4_exclusions t i w : view4_of t i = Some w ->
                                           | Transp4 _ idx _ _ => match nth_error (vout4 t) idx with Some o => Some [o] | None => None end
                                           | Shielded4 => None end).
 Proof.
-  intros E ht. unfold view4_of in E. fold ht in E.
-  destruct (match i with Shielded4 => Some None | Transp4 _ idx value code => _ end) as [x|]; [|discriminate].
-  injection E as <-. cbn [w_prev w_seq w_outs].
-  repeat split; try (destruct (flag_acp ht); split; congruence);
-    try (destruct (flag_acp ht || flag_single ht || flag_none ht); split; congruence).
-  - intros -> ->. reflexivity.
-  - intros -> ->. reflexivity.
-  - intros ->. cbn [negb andb]. reflexivity.
+  intros E ht.
+  assert (X : exists x, w = {| w_ver := t4_ver t; w_branch := t4_branch t; w_lock := t4_lock t; w_expiry := t4_expiry t;
+              w_ht := ht;
+              w_prev := if flag_acp ht then None else Some (map (fun x => (ti_hash x, ti_n x)) (vin4 t));
+              w_seq := if flag_acp ht || flag_single ht || flag_none ht then None else Some (map ti_seq (vin4 t));
+              w_outs := if negb (flag_single ht) && negb (flag_none ht) then Some (vout4 t)
+                        else if flag_single ht then
+                               match i with
+                               | Transp4 _ idx _ _ =>
+                                   match nth_error (vout4 t) idx with Some o => Some [o] | None => None end
+                               | Shielded4 => None
+                               end
+                             else None;
+              w_js := match t4_js t with [] => None | l => Some (l, t4_jspub t) end;
+              w_spends := if is_v4 (t4_ver t)
+                          then match t4_sap t with Some b => nonempty (map nosig (sa_spends b)) | None => None end
+                          else None;
+              w_souts := if is_v4 (t4_ver t)
+                         then match t4_sap t with Some b => nonempty (sa_outputs b) | None => None end
+                         else None;
+              w_vb := if is_v4 (t4_ver t) then match t4_sap t with Some b => sa_vb b | None => 0%Z end else 0%Z;
+              w_in := x |}).
+  { unfold view4_of in E. fold ht in E.
+    destruct i as [|h0 idx v code].
+    - injection E as <-. eexists. reflexivity.
+    - destruct (t4_transp t) as [b|]; [|discriminate]. destruct (nth_error (tb_vin b) idx); [|discriminate].
+      injection E as <-. eexists. reflexivity. }
+  destruct X as [x ->]. cbn [w_prev w_seq w_outs].
+  split; [destruct (flag_acp ht); split; congruence|].
+  split; [destruct (flag_acp ht || flag_single ht || flag_none ht); split; congruence|].
+  split; [intros -> ->; reflexivity|]. split; [intros -> ->; reflexivity|].
+  intros ->. reflexivity.
 Qed.
